@@ -157,7 +157,9 @@ def compare(res, oracle=None):
             raw_equal = False
             if strip_trace(res[a]["out"]) != strip_trace(res[b]["out"]):
                 sa, sb = strip_host(res[a]["out"]), strip_host(res[b]["out"])
-                killed = [(x, y) for x, y, r in ((sa, sb, a), (sb, sa, b)) if res[r]["rc"] < 0 and y.startswith(x)]
+                # r was killed by a signal and the OTHER route's run crashed as well (the driver reported a program fault)
+                killed = [(x, y) for x, y, r, o in ((sa, sb, a, b), (sb, sa, b, a))
+                          if res[r]["rc"] < 0 and y.startswith(x) and FAULT_RE.search(res[o]["out"])]
                 if sa == sb:
                     host_only = True          # only the driver's own crash report / internal warnings differ
                 elif st[a] == st[b] == "fail" and killed:
@@ -427,21 +429,31 @@ def run(rep, tier):
     t0 = time.time()
     exe = C.build_compiler()
     rt = C.build_runtime()
-    known_bad, trace_known = generate(exe)
-    from props import c04                      # the builtin tables the restated C04 theorem is about: regenerated too
-    c04.generate()
+    gen_error = None
+    try:
+        known_bad, trace_known = generate(exe)
+        from props import c04                  # the builtin tables the restated C04 theorem is about: regenerated too
+        c04.generate()
+    except C.BuildError:
+        raise
+    except Exception as e:                     # the sources no longer have the shape the translator reads (GenError, ...)
+        gen_error = "%s: %s" % (type(e).__name__, str(e)[:300])
+        known_bad, trace_known = G.known_from(C.known_findings())
+        rep.notes.append("translator failed (%s): no proof stage on this tree; the decision runs still look for a failing program" % gen_error)
     base = C.scratch("c03")
     rng = C.rng("c03")
     quick = tier == "quick"
     stats = collections.Counter()
     feat = collections.Counter()
-    viol = {"n": 0}
+    viol = {"n": 0, "concrete": 0}
     trace_seen = []
+    proof_log = {}
 
     def searcher(log):
         """An obligation about the exit-path tables no longer closes: run programs that END in every modelled way - the
         halt codes named by failed rows first - through the three routes at every level and report one on which stdout
         or the status class differ (the property's own statement)."""
+        proof_log["log"] = log
         codes = sorted({int(x) for x in re.findall(r'ROW-FAILED halt code"?\s*\(?(-?\d+)', log)})
         stats["rows_failed_in_proof"] = len(codes)
         sweep = [("normal", None), ("throw", None), ("assert", None), ("never", None), ("union", None), ("error", None)]
@@ -468,7 +480,8 @@ def run(rep, tier):
         g = group or what
         seen_groups[g] += 1
         if seen_groups[g] == 1 and (len(seen_groups) <= 12 or key is not None):
-            rep.violation(what, obj, key=key)
+            if rep.violation(what, obj, key=key):
+                viol["concrete"] += 1          # an unlisted violation with a concrete replay
 
     def job_runner(jobs):
         """jobs: [(tag, prog dict(src, oracle?), lib, q)] -> [(job, res, verdict, detail)] in parallel"""
@@ -485,13 +498,34 @@ def run(rep, tier):
         with concurrent.futures.ThreadPoolExecutor(C.NCPU) as ex:
             return list(ex.map(one, jobs))
 
-    proved = C.proof_stage(rep, ID, ["Props/Properties_C03.vo", "Routes/Extract.vo"], "Props/Properties_C03.v", searcher)
+    def defer_alarm(what, obj):
+        """emit `what ... no-failing-input-found' at the end of the run unless the decision runs reported a concrete, unlisted
+        violation meanwhile (listed findings do not count: they are seen on every run)"""
+        def fin():
+            if viol["concrete"] == 0:
+                rep.violation(what, obj, no_input=True)
+        rep.proof_finalize = fin
+    if gen_error:
+        proved = False
+        rep.add_obligations(len(re.findall(r"^\s*Theorem\s", open(os.path.join(C.COQ, "Props/Properties_C03.v")).read(), re.M)), 0)
+        defer_alarm("the exit-path translator cannot read the current sources (%s): the theorems of C03 are not checked on this tree"
+                    % gen_error, {"translator": "tools/exitclasses_gen.py", "error": gen_error})
+    else:
+        proved = C.proof_stage(rep, ID, ["Props/Properties_C03.vo", "Routes/Extract.vo"], "Props/Properties_C03.v",
+                               searcher, defer=True)
+        if not proved and "log" in proof_log:
+            log = proof_log["log"]
+            failing = re.findall(r'File "([^"]+)", line (\d+)', log)
+            defer_alarm("proof obligation no longer checks: %s" % (failing[:3],),
+                        {"failing": failing[:10], "log_tail": log[-3000:], "props": "Props/Properties_C03.v"})
+        elif not proved:
+            rep.proof_finalize = None          # the gate itself reported
     t_proof = time.time() - t0
 
     # ---- 1. correspondence of the ending model with the real binaries -------------------------------
     drv = None
     try:
-        drv = model_driver()
+        drv = None if gen_error else model_driver()
     except (C.BuildError, OSError) as e:
         rep.notes.append("ending model not available (extraction did not build): %s" % str(e)[:200])
     n_model = 0
@@ -547,8 +581,8 @@ def run(rep, tier):
     stats["model_predictions_checked"] = n_model
 
     # ---- 2. the programs ----------------------------------------------------------------------------
-    n_mini = 18 if quick else 200
-    n_end = 20 if quick else 120
+    n_mini = 18 if quick else 150
+    n_end = 20 if quick else 90
     n_corp = 10 if quick else None
     sizes = [6, 10, 14, 20] if quick else [6, 10, 14, 20, 30, 45]
     mini.build(rebuild_coq=False)
@@ -638,10 +672,11 @@ def run(rep, tier):
     # the interpreter's stack trace on stdout: one keyed report, with the smallest witness
     if trace_seen:
         jb, res = min(trace_seen, key=lambda x: len(x[0][1]["src"]))
-        rep.violation("a run that reaches a halt prints the interpreter's stack trace (fintWhere) on STANDARD OUTPUT; the "
+        if rep.violation("a run that reaches a halt prints the interpreter's stack trace (fintWhere) on STANDARD OUTPUT; the "
                       "executable prints nothing there: stdout of the two routes differs (%d runs in this sample)" % len(trace_seen),
                       {"how_to_replay": "./check C03 --replay <this file>", "src": jb[1]["src"], "level": jb[3], "lib": jb[2],
-                       "name": jb[1].get("name", "p"), "observed": brief(res)}, key=KEY_TRACE)
+                       "name": jb[1].get("name", "p"), "observed": brief(res)}, key=KEY_TRACE):
+            viol["concrete"] += 1
 
     # shrink generated programs that disagree
     for seed in [s for s, (p, q, res, det) in bad_mini.items()
@@ -650,7 +685,7 @@ def run(rep, tier):
         report("generated program (seed %d size %d) at -Q%d: %s" % (p["seed"], p["size"], q, det),
                {"seed": p["seed"], "size": p["size"], "level": q, "lib": "aldor", "src": p["src"], "observed": brief(res)},
                key=signature_key(res, q))
-    for seed, (p, q, res, det) in list(bad_mini.items())[:3]:
+    for seed, (p, q, res, det) in list(bad_mini.items())[:2]:
         def still_fails(cand, q=q):
             d = "%s/shr-%d" % (base, next(_uniq))
             try:
@@ -658,7 +693,7 @@ def run(rep, tier):
                 return compare(r, {"out": cand["expect_out"], "status": cand["expect_status"]})[0] == "disagree"
             finally:
                 shutil.rmtree(d, ignore_errors=True)
-        path, small = mini.shrink(p["seed"], p["size"], still_fails, budget_s=(60 if quick else 400))
+        path, small = mini.shrink(p["seed"], p["size"], still_fails, budget_s=(60 if quick else 240))
         d = "%s/fin-%d" % (base, next(_uniq))
         r2 = run_routes(exe, rt, small["src"], "aldor", q, d)
         v2, det2 = compare(r2, {"out": small["expect_out"], "status": small["expect_status"]})
@@ -670,7 +705,7 @@ def run(rep, tier):
                 "level": q, "lib": "aldor", "src": small["src"],
                 "oracle": {"out": small["expect_out"], "status": small["expect_status"]}, "observed": brief(r2)},
                key=signature_key(r2, q))
-    for seed, (p, q, res, det) in list(bad_mini.items())[3:]:
+    for seed, (p, q, res, det) in list(bad_mini.items())[2:]:
         report("generated program (seed %d size %d, not shrunk) at -Q%d: %s" % (p["seed"], p["size"], q, det),
                {"seed": p["seed"], "size": p["size"], "level": q, "lib": "aldor", "src": p["src"],
                 "oracle": p["oracle"], "observed": brief(res)}, key=signature_key(res, q))
@@ -707,8 +742,9 @@ def run(rep, tier):
         "what the compiler DRIVER prints on stdout about a run it hosts - `Program fault (..).#1 (Error) Program fault (..).' (with the "
         "hard-assertion line before it) when the interpreted program crashes, and `Internal Warning: ..' lines of the compilation - is "
         "not program output: pairs that differ only there are counted as `host-report-only' (the status classes must still be equal); "
-        "likewise when both routes fail, the executable was killed by a signal and its stdout is a prefix of the interpreter's "
-        "(stdio buffers are lost with the process)",
+        "likewise when the interpreted run CRASHED (the driver reports a program fault), the executable was killed by a signal and "
+        "its stdout is a prefix of the interpreter's (stdio buffers are lost with a crashing process); an orderly failing end - uncaught "
+        "exception, halt - gets no such allowance: every route's stdout is captured through a pipe and must be complete",
         "stack-trace lines of the interpreter (fintWhere) are removed before stdout is compared ONLY to tell the keyed finding "
         "`%s' from other disagreements; the raw difference is reported under that key" % KEY_TRACE,
         "hand family (props/c12.py:family_program): integer, boolean, string, list, record, closure programs whose values are tracked "
